@@ -405,6 +405,31 @@ func c10run(env sched.Env) *sched.Report {
 			}
 		}
 	}
+	// (d') digit strings around every length threshold and around the int64 / uint64 limits
+	if env.Shard == 0 {
+		var toks []string
+		for l := 8; l <= 21; l++ {
+			for _, d := range []string{"1", "9"} {
+				toks = append(toks, strings.Repeat(d, l), "1"+strings.Repeat("0", l-1), strings.Repeat("0", l-1)+d)
+			}
+		}
+		for _, b := range []string{"9223372036854775806", "9223372036854775807", "9223372036854775808", "9223372036854775809", "9223372036854775810",
+			"9223372036854775817", "9300000000000000000", "9999999999999999999", "18446744073709551615", "18446744073709551616", "2147483647", "2147483648",
+			"4294967295", "4294967296", "999999999", "1000000000", "9999999999", "10000000000"} {
+			toks = append(toks, b)
+		}
+		for _, t := range toks {
+			for _, s := range []string{t, "-" + t, "+" + t} {
+				rep.Execs++
+				sched.Progress(nil)
+				got, gerr := btoi64([]byte(s))
+				want, werr := strconv.ParseInt(s, 10, 64)
+				if (gerr != nil) != (werr != nil) || (gerr == nil && got != want) {
+					fail("btoi64-differs-from-strconv / near a length or range limit", fmt.Sprintf("input %q: got %d,%v want %d,%v", s, got, gerr, want, werr), c10case{Kind: "btoi", Text: s})
+				}
+			}
+		}
+	}
 	// (f) long concatenations through ONE decoder: 300 repetitions of a unit (null/empty/nested messages),
 	// followed by every value of the grammar; whatever was decoded before must not change what comes later
 	if env.Shard == 0 {
